@@ -312,24 +312,29 @@ def to_signum(signum):
         'SIGKILL' - signal names with SIG prefix
         'SIGRTMIN+1' - signal names with offsets
     """
+    if isinstance(signum, (bool, float)):
+        raise ValueError('signal invalid: {}'.format(signum))
+
+    val = None
     try:
         val = int(signum)
-        return val
-    except ValueError:
+    except (TypeError, ValueError):
         pass
 
-    m = re.match(r'(\w+)(\+(\d+))?', signum)
-    if m:
-        name = m.group(1).upper()
-        if not name.startswith('SIG'):
-            name = 'SIG' + name
+    if val is None and isinstance(signum, str):
+        m = re.fullmatch(r'(\w+)(\+(\d+))?', signum.strip())
+        if m:
+            name = m.group(1).upper()
+            if not name.startswith('SIG'):
+                name = 'SIG' + name
 
-        offset = int(m.group(3)) if m.group(3) else 0
+            offset = int(m.group(3)) if m.group(3) else 0
+            base = getattr(signal, name, None)
+            if isinstance(base, signal.Signals):
+                val = int(base) + offset
 
-        try:
-            return getattr(signal, name) + offset
-        except KeyError:
-            pass
+    if val is not None and 0 < val < signal.NSIG:
+        return val
 
     raise ValueError('signal invalid: {}'.format(signum))
 
